@@ -255,6 +255,8 @@ def argv_of(pt):
     fmt = pt.get("fmt", "tum")
     ext = {"tum": ".txt", "kitti": ".kit", "euroc": ".csv"}[fmt]
     files = ["est1" + ext] + (["est2" + ext] if pt["nfiles"] == 2 else [])
+    if pt.get("order") == "swapped":
+        files = files[::-1]      # the shorter estimate first
     if fmt == "tum" and pt.get("epoch"):
         files = [f[:-len(ext)] + "_e" + ext for f in files]
     if fmt == "euroc" and pt.get("header") is False:
@@ -547,6 +549,15 @@ def points(ctx):
                 ("t_max_diff", [0.01, 0.3]), ("export", ["tum", "kitti"])]
         for q in lattice.product(proc):
             pts.append(dict(q, transform=TRANSF[0]))
+    # + the two estimates in the other order (the one with fewer poses
+    # first) x down-sampling to a count between their sizes
+    for q in lattice.product([("downsample", [None, 5, 7]),
+                              ("align", ["none", "sync", "as"]),
+                              ("merge", [False, True]),
+                              ("motion_filter", [None, (2.5, 170.0)])]):
+        pts.append(dict(q, transform=TRANSF[0], order="swapped", nfiles=2,
+                        t_offset=0.0, n_to_align=-1, project=None,
+                        export="tum", t_max_diff=0.01))
     # + the same files with epoch-sized timestamps (1.5e9 s) x every use of
     # the reference
     for q in lattice.product([("nfiles", [1, 2]), ("align", ALIGN),
